@@ -7,8 +7,8 @@
    IEEE-754 bit patterns of non-negative float64 values (ordered like the
    values); counter values are uint64 (N), report values int64 (Z, wrap64). *)
 From Coq Require Import List ZArith NArith Bool.
-From Tele Require Import Lib.Bytes Lib.Str Lib.Assoc Model.Config Model.ApprovalSpec Model.Report
-  Proofs.ConfigFacts Proofs.AggregateFacts Proofs.ReportFacts Proofs.ReportOracle Proofs.ReportOracleSound.
+From Tele Require Import Lib.Bytes Lib.Str Lib.Assoc Model.Config Model.ApprovalSpec Model.Report Model.ReportRuns
+  Proofs.ConfigFacts Proofs.AggregateFacts Proofs.ReportFacts Proofs.ReportOracle Proofs.ReportOracleSound Proofs.ReportRunsFacts Proofs.ReportPrograms.
 Import ListNotations.
 From Coq Require Import String. Open Scope string_scope. Open Scope Z_scope. Open Scope list_scope.
 
@@ -178,6 +178,49 @@ Theorem C01_oracle_sound : forall u files local up,
   (forall f, In f files -> present_ok u (r_x local) (r_programs up) f).
 Proof. exact report_ok_sound. Qed.
 Print Assumptions C01_oracle_sound.
+
+(* ---- Histories: several runs of one process on one directory.  A run
+   parses every count file once (findWork) and reads it again through the
+   parse cache (reports); the cache starts empty in every Run (a new uploader).
+   Started with ANY cache consistent with the directory, a run reports exactly
+   the expired files of the directory as it is at that run ... *)
+Theorem C01_run_with_consistent_cache : forall c0 p d,
+  NoDup (map d_name d) -> cache_ok c0 d -> run_with c0 p d = run_spec p d.
+Proof. exact run_with_ok. Qed.
+Print Assumptions C01_run_with_consistent_cache.
+
+(* ... so does every run of a process, whatever earlier runs have parsed
+   (count files are extended, created and expire between runs) ... *)
+Theorem C01_run_history_reads_current : forall h,
+  (forall s, In s h -> NoDup (map d_name (snd s))) ->
+  run_history h = map (fun s => run_spec (fst s) (snd s)) h.
+Proof. exact run_history_spec. Qed.
+Print Assumptions C01_run_history_reads_current.
+
+(* ... and the C01 oracle, given the files as they are at that run, accepts
+   its reports (outside the two known classes). *)
+Theorem C01_run_oracle_model : forall p d local up deleted,
+  NoDup (map d_name d) ->
+  run_uploader p d = (Some (local, Some up), deleted) ->
+  forall fl, In fl (report_check (rp_cfg p) (map d_file (expired_now (rp_start p) d)) local up) ->
+             cert (rp_cfg p) (map d_file (expired_now (rp_start p) d)) fl.
+Proof. exact run_report_check. Qed.
+Print Assumptions C01_run_oracle_model.
+
+(* the consistency hypothesis is necessary: a cache holding an older state of
+   a file makes the run report the old values (why the cache must not outlive a run) *)
+Theorem C01_stale_cache_differs :
+  exists c0 p d, NoDup (map d_name d) /\ run_with c0 p d <> run_spec p d.
+Proof. exact stale_cache_refuted. Qed.
+Print Assumptions C01_stale_cache_differs.
+
+(* ---- Programs of one weekly report are filtered independently of each
+   other and of their order. *)
+Theorem C01_upload_program_independent : forall c x before p after,
+  filter_upload c x (before ++ p :: after) =
+  filter_upload c x before ++ filter_upload c x [p] ++ filter_upload c x after.
+Proof. exact upload_program_independent. Qed.
+Print Assumptions C01_upload_program_independent.
 
 (* ---- Known findings, as witnesses in the model (both confirmed on the real
    code by the correspondence suite, classes rate-table-shared / value-wrap).
